@@ -39,7 +39,7 @@ theorem pp_coincident_at_zero : GenRs.pp_coincident (⟨0, 0, 0⟩ : V3 ℝ) = t
 /-! ### `RcParams2::set` / `RcParams3::set` (whole-body patterns) -/
 
 /-- an update stores exactly the parameters it is given and then recomputes the whole cached state (`compute()` is the
-    only other statement the pattern admits): transform, inverse, rotation matrices and moved rotation centre always
+    only other statement the pattern allows): transform, inverse, rotation matrices and moved rotation centre always
     belong to the LAST update, whatever changed since the one before -/
 theorem set_stores_the_given_parameters (x : ℝ) : GenRs.rc2_set_stored x = x ∧ GenRs.rc3_set_stored x = x := ⟨rfl, rfl⟩
 
